@@ -55,6 +55,7 @@ def write_evidence(ctx, mod, verdict):
         "ties_broken": ctx.ties_broken[:10],
         "intensified_search": ctx.intensified,
         "notes": ctx.notes[:20],
+        "process_time_zone": getattr(ctx, "process_tz", None),
     }
     if ctx.exhaustive is not None:
         cov["exhaustive"] = bool(ctx.exhaustive)
@@ -84,6 +85,20 @@ def stage(ctx, name, fn):
     return None
 
 
+# The whole check runs under a NON-UTC process time zone (chosen by the seed; seed 0 = +05:45 without DST).  pyorbital's
+# answers must not depend on the host's zone; code that converts naive or aware datetimes through the local zone
+# (`astimezone()` without argument, `time.mktime`, `datetime.fromtimestamp`) is invisible on a UTC host and visible here.
+PROCESS_ZONES = ["<+0545>-5:45", "XYZ4", "CET-1CEST,M3.5.0,M10.5.0/3", "<-0930>9:30", "UTC0", "JST-9"]
+
+
+def set_process_zone(seed, zone=None):
+    import time
+    zone = zone or os.environ.get("PV_TZ") or PROCESS_ZONES[seed % len(PROCESS_ZONES)]
+    os.environ["TZ"] = zone
+    time.tzset()
+    return zone
+
+
 def main():
     ap = argparse.ArgumentParser()
     ap.add_argument("pid")
@@ -93,7 +108,16 @@ def main():
     args = ap.parse_args()
     pid = args.pid.upper()
     seed = int(os.environ.get("VERIF_SEED", "0") or 0)
+    if args.replay:
+        try:
+            _c = json.load(open(args.replay if os.path.isabs(args.replay) else os.path.join(lib.ROOT, args.replay)))
+            zone = set_process_zone(int(_c.get("seed", seed)), _c.get("process_tz"))
+        except Exception:  # noqa
+            zone = set_process_zone(seed)
+    else:
+        zone = set_process_zone(seed)
     ctx = lib.Ctx(pid, args.tier, seed)
+    ctx.process_tz = zone
     try:
         mod = importlib.import_module("props." + pid.lower())
     except ImportError as e:
@@ -115,7 +139,7 @@ def main():
             # re-run it.
             print("replay: recorded input alone does not reproduce; re-running the check with seed=%s tier=%s" % (
                 case["seed"], case.get("tier", "quick")))
-            env = dict(os.environ, VERIF_SEED=str(case["seed"]), PV_EVIDENCE_DIR=os.path.join(lib.ROOT, "replays", "_rerun_evidence"),
+            env = dict(os.environ, VERIF_SEED=str(case["seed"]), PV_TZ=zone, PV_EVIDENCE_DIR=os.path.join(lib.ROOT, "replays", "_rerun_evidence"),
                        PV_REPLAY_DIR=os.path.join(lib.ROOT, "replays", "_rerun"))
             # (a full run: the generated files and the driver are rebuilt from the tree as it is now)
             cmd = [sys.executable, os.path.abspath(__file__), pid, "--tier", case.get("tier", "quick")]
@@ -242,13 +266,13 @@ def main():
         v0 = new[0]
         path = write_replay(ctx, "violation", {
             "property": pid, "kind": v0["kind"], "site": v0["site"], "input": v0["case"], "observed": v0["observed"],
-            "required": v0["required"], "more": new[1:6], "ties_broken": ctx.ties_broken[:5], "seed": seed, "tier": args.tier,
+            "required": v0["required"], "more": new[1:6], "ties_broken": ctx.ties_broken[:5], "seed": seed, "tier": args.tier, "process_tz": zone,
             "replay_cmd": "./check %s --replay <this file>" % pid})
         print("VIOLATION property=%s replay=%s" % (pid, path))
         rc = 1
     elif ctx.ties_broken:
         path = write_replay(ctx, "tie", {
-            "property": pid, "no_failing_input_found": True, "seed": seed, "tier": args.tier,
+            "property": pid, "no_failing_input_found": True, "seed": seed, "tier": args.tier, "process_tz": zone,
             "broken": ctx.ties_broken[:8],
             "first_disagreements": ctx.disagreements[:5],
             "theorems_registered": ctx.obligations, "theorems_discharged": ctx.discharged,
